@@ -18,7 +18,9 @@ RULE = ('alias maps of up to 6 entries over a model of 1-4 variables (one-to-one
         'self-maps, 2- and 3-cycles, aliases of undeclared variables, aliases named like a variable / like status), PREFERRED_NAMES subsets '
         '(none, aliases, variables, ambiguous, duplicated), constructor keywords through aliases (incl. an alias and its target together), '
         'then C09 operation sequences (<= 25 ops, incl. the read-only hooks _ipython_key_completions_ / dir() / in / nbytes) made through '
-        'randomly chosen aliases, reads by name / label / label slice / attribute, copy() and reindex() of the final object, '
+        'randomly chosen aliases, cross-instance steps (siblings made by copy()/deepcopy/reindex() and operated on, the object replaced by its '
+        'copy, alias attribute reads before them), class families (the class under test extends its parent\'s ALIASES or is extended by a '
+        'subclass; the other class instantiated before / after), reads by name / label / label slice / attribute, copy() and reindex() of the final object, '
         'a final solve() of a two-variable equation written through aliases; every run is compared with a canonical twin (no AliasMixin, '
         'operated through the ends of the declared chains). Non-trivial = constructed, and (an operation through an alias was accepted, '
         'or the export renamed a column). Distinct by hash of the case.')
